@@ -79,6 +79,13 @@ impl Drop for MuxStream {
     }
 }
 
+/// The most payload octets one `Push` frame carries. WebSocket implementations refuse
+/// frames above a size limit and then fail the whole connection (by default 16 MiB in
+/// `tungstenite`, 1 MiB in `yawc`), so a longer write is a short write: the caller
+/// (`write_all`, the bridge) comes back with the rest.
+#[cfg(feature = "std")]
+pub(crate) const MAX_PUSH_PAYLOAD: usize = 1 << 19;
+
 impl MuxStream {
     /// Poll for another `Push` frame to fill the internal buffer.
     ///
@@ -261,7 +268,7 @@ impl MuxStream {
 
 #[cfg(feature = "std")]
 mod tokio_io_impls {
-    use super::MuxStream;
+    use super::{MAX_PUSH_PAYLOAD, MuxStream};
     use crate::frame::Frame;
     use alloc::vec::Vec;
     use core::pin::Pin;
@@ -303,6 +310,7 @@ mod tokio_io_impls {
             cx: &mut Context<'_>,
             buf: &[u8],
         ) -> Poll<io::Result<usize>> {
+            let buf = &buf[..buf.len().min(MAX_PUSH_PAYLOAD)];
             ready!(self.as_ref().poll_write_push(cx, buf)).ok_or(BrokenPipe)?;
             trace!("sent a frame");
             Poll::Ready(Ok(buf.len()))
@@ -334,6 +342,8 @@ mod tokio_io_impls {
             let mut slices = Vec::with_capacity(bufs.len());
             let mut total_len = 0;
             for buf in bufs {
+                // See `MAX_PUSH_PAYLOAD`: what does not fit is left for the next call
+                let buf = &buf[..buf.len().min(MAX_PUSH_PAYLOAD - total_len)];
                 total_len += buf.len();
                 slices.push(CowBytes::Temporary(buf));
             }
